@@ -2030,6 +2030,82 @@ func t2c19Label(c *Ctx, p *packages.Package, labelVar *types.Var, unknown *types
 			}
 		}
 	}
+	if tVar == nil && getType != nil && kVar != nil {
+		// GetType and Label share the classifier g(cert, k): GetType is "unknown for a nil certificate or an undecodable
+		// KeyID, else g(cert, k)", and Label refuses those two cases itself and then asks g for the same certificate and KeyID
+		if g := t2sharedClassifier(p, getType, unknown); g != nil {
+			var errVar types.Object
+			ast.Inspect(fd.Body, func(n ast.Node) bool {
+				as, ok := n.(*ast.AssignStmt)
+				if !ok || len(as.Rhs) != 1 {
+					return true
+				}
+				call, callee := t2callee(p, as.Rhs[0])
+				if call == nil {
+					return true
+				}
+				if len(as.Lhs) == 2 && t2obj(p, as.Lhs[0]) == kVar {
+					if f, ok := callee.(*types.Func); ok && f.Name() == "Unmarshal" {
+						errVar = t2obj(p, as.Lhs[1])
+					}
+				}
+				return true
+			})
+			refuses := func(isCase func(cond ast.Expr) bool) bool {
+				found := false
+				ast.Inspect(fd.Body, func(n ast.Node) bool {
+					is, ok := n.(*ast.IfStmt)
+					if !ok || is.Init != nil && false {
+						return true
+					}
+					if isCase(t2unparen(is.Cond)) {
+						r := t2firstReturn(is.Body.List)
+						if r != nil && len(r.Results) > 0 && t2isErrCtor(p, r.Results[len(r.Results)-1]) {
+							found = true
+						}
+					}
+					return true
+				})
+				return found
+			}
+			nilCert := refuses(func(cond ast.Expr) bool {
+				be, ok := cond.(*ast.BinaryExpr)
+				return ok && be.Op == token.EQL && ((t2obj(p, be.X) == certParam && t2isNilIdent(p, be.Y)) || (t2obj(p, be.Y) == certParam && t2isNilIdent(p, be.X)))
+			})
+			badKid := errVar != nil && refuses(func(cond ast.Expr) bool {
+				be, ok := cond.(*ast.BinaryExpr)
+				return ok && be.Op == token.NEQ && ((t2obj(p, be.X) == errVar && t2isNilIdent(p, be.Y)) || (t2obj(p, be.Y) == errVar && t2isNilIdent(p, be.X)))
+			})
+			if nilCert && badKid {
+				ast.Inspect(fd.Body, func(n ast.Node) bool {
+					as, ok := n.(*ast.AssignStmt)
+					if !ok || len(as.Rhs) != 1 || len(as.Lhs) != 1 {
+						return true
+					}
+					if call, callee := t2callee(p, as.Rhs[0]); call != nil && callee == types.Object(g) && len(call.Args) == 2 && t2obj(p, call.Args[0]) == certParam && t2obj(p, call.Args[1]) == kVar {
+						tVar = t2obj(p, as.Lhs[0])
+					}
+					return true
+				})
+			}
+			if tVar != nil {
+				ast.Inspect(fd.Body, func(n ast.Node) bool {
+					as, ok := n.(*ast.AssignStmt)
+					if !ok || len(as.Rhs) != 1 || len(as.Lhs) == 0 {
+						return true
+					}
+					if ix, ok := t2unparen(as.Rhs[0]).(*ast.IndexExpr); ok && t2obj(p, ix.X) == types.Object(labelVar) && t2obj(p, ix.Index) == tVar {
+						lVar = t2obj(p, as.Lhs[0])
+						lookupPos = as.Pos()
+						if len(as.Lhs) == 2 {
+							okVar = t2obj(p, as.Lhs[1])
+						}
+					}
+					return true
+				})
+			}
+		}
+	}
 	c.Check(tVar != nil, rule, "Label|type obtained from GetType(cert)", fpos, "certType := GetType(cert) on Label's own parameter", "Label does not assign GetType(<its parameter>) to a variable")
 	c.Check(lVar != nil, rule, "Label|label looked up as "+labelVar.Name()+"[GetType(cert)]", w.Pos(lookupPos), "label := "+labelVar.Name()+"[certType]", "Label does not read "+labelVar.Name()+" at the GetType result")
 	c.Check(kVar != nil, rule, "Label|KeyID decoded from cert.KeyId", fpos, "k := keyid.Unmarshal(cert.KeyId) on Label's own parameter", "Label does not decode keyid.Unmarshal(<its parameter>.KeyId)")
@@ -2702,4 +2778,61 @@ func nilOnlyWithUnknown(w *World, g *types.Func, unknown *types.Const) bool {
 		}
 	}
 	return true
+}
+
+// t2sharedClassifier: the package function g such that GetType(cert) is: unknown for a nil certificate, unknown when
+// keyid.Unmarshal(cert.KeyId) fails, and g(cert, <decoded KeyID>) otherwise - written as exactly those statements.
+func t2sharedClassifier(p *packages.Package, getType *types.Func, unknown *types.Const) *types.Func {
+	gt := funcDecl(p, getType.Name())
+	if gt == nil || gt.Body == nil || gt.Type.Params == nil || len(gt.Type.Params.List) != 1 || len(gt.Type.Params.List[0].Names) != 1 {
+		return nil
+	}
+	cert := p.TypesInfo.Defs[gt.Type.Params.List[0].Names[0]]
+	retUnknown := func(is *ast.IfStmt) bool {
+		if is.Else != nil || len(is.Body.List) != 1 {
+			return false
+		}
+		r, ok := is.Body.List[0].(*ast.ReturnStmt)
+		return ok && len(r.Results) == 1 && t2obj(p, r.Results[0]) == types.Object(unknown)
+	}
+	stmts := gt.Body.List
+	if len(stmts) == 4 {
+		is, ok := stmts[0].(*ast.IfStmt)
+		if !ok || is.Init != nil || !retUnknown(is) {
+			return nil
+		}
+		be, ok := t2unparen(is.Cond).(*ast.BinaryExpr)
+		if !ok || be.Op != token.EQL || !((t2obj(p, be.X) == cert && t2isNilIdent(p, be.Y)) || (t2obj(p, be.Y) == cert && t2isNilIdent(p, be.X))) {
+			return nil
+		}
+		stmts = stmts[1:]
+	}
+	if len(stmts) != 3 {
+		return nil
+	}
+	as, ok1 := stmts[0].(*ast.AssignStmt)
+	is, ok2 := stmts[1].(*ast.IfStmt)
+	ret, ok3 := stmts[2].(*ast.ReturnStmt)
+	if !ok1 || !ok2 || !ok3 || len(as.Lhs) != 2 || len(as.Rhs) != 1 || is.Init != nil || !retUnknown(is) || len(ret.Results) != 1 {
+		return nil
+	}
+	call, callee := t2callee(p, as.Rhs[0])
+	f, isF := callee.(*types.Func)
+	if call == nil || !isF || f.Name() != "Unmarshal" || f.Pkg() == nil || !strings.HasSuffix(f.Pkg().Path(), "/keyid") || len(call.Args) != 1 {
+		return nil
+	}
+	if sel, ok := t2unparen(call.Args[0]).(*ast.SelectorExpr); !ok || sel.Sel.Name != "KeyId" || t2obj(p, sel.X) != cert {
+		return nil
+	}
+	k, errV := t2obj(p, as.Lhs[0]), t2obj(p, as.Lhs[1])
+	be, ok := t2unparen(is.Cond).(*ast.BinaryExpr)
+	if !ok || be.Op != token.NEQ || !((t2obj(p, be.X) == errV && t2isNilIdent(p, be.Y)) || (t2obj(p, be.Y) == errV && t2isNilIdent(p, be.X))) {
+		return nil
+	}
+	gcall, gcallee := t2callee(p, ret.Results[0])
+	g, isG := gcallee.(*types.Func)
+	if gcall == nil || !isG || g.Pkg() != getType.Pkg() || len(gcall.Args) != 2 || t2obj(p, gcall.Args[0]) != cert || t2obj(p, gcall.Args[1]) != k {
+		return nil
+	}
+	return g
 }
